@@ -1696,8 +1696,13 @@ class FileBuilder:
         operation = self._operation
         filename = operation.filename
         operation.raised = True
-        self._build_dirs.error_building_file(filename)
+
+        # Remove the file before releasing its parent directories. Otherwise,
+        # another thread that scans one of those directories in the meantime
+        # would take the file for an external one and conclude that the
+        # directory still exists.
         FileBuilder._try_to_remove_file(filename)
+        self._build_dirs.error_building_file(filename)
         logger.warning(
             'Failed to rebuild {:s}, due to an exception'.format(filename))
 
